@@ -225,7 +225,7 @@ func c06RefShape(n *c06Node, sb *strings.Builder) {
 
 type c06Case struct {
 	Seq   []int `json:"seq"`
-	Style int   `json:"style,omitempty"` // 0 plain; 1 {%- tag -%}; 2 {%-tag-%} (hyphens glued to the tag); 3 {%tag%}
+	Style int   `json:"style,omitempty"` // 0 plain; 1 {%- tag -%}; 2 {%-tag-%} (hyphens glued to the tag); 3 {%tag%}; 4 an engine with the delimiters [[ ]] [% %]
 }
 
 // c06Styled re-spells the tags of a source in another, equally valid style.
@@ -237,14 +237,25 @@ func c06Styled(src string, style int) string {
 		return strings.NewReplacer("{% ", "{%-", " %}", "-%}").Replace(src)
 	case 3:
 		return strings.NewReplacer("{% ", "{%", " %}", "%}").Replace(src)
+	case 4: // an engine configured with other delimiters (C19: equivalent to the defaults)
+		return strings.NewReplacer("{% ", "[% ", " %}", " %]", "{{ ", "[[ ", " }}", " ]]").Replace(src)
 	}
 	return src
 }
 
 var c06Engine = liquid.NewEngine()
+var c06EngineAlt = func() *liquid.Engine {
+	e := liquid.NewEngine()
+	e.Delims("[[", "]]", "[%", "%]")
+	return e
+}()
 var c06Binds = map[string]any{"a": []any{1}}
 
 func c06Check(seq []int, s *hx.Sub, style int) *hx.Violation {
+	c06Engine := c06Engine
+	if style == 4 {
+		c06Engine = c06EngineAlt
+	}
 	src := c06Styled(c06Source(seq), style)
 	ref, accept := c06Accept(seq, style)
 	var tpl *liquid.Template
@@ -392,6 +403,17 @@ func TestC06(t *testing.T) {
 	runSeq := func(seq []int) {
 		seqs.Sub.Eval()
 		c := &c06Case{Seq: seq}
+		if len(seq) <= 3 {
+			// the short sequences also in every other spelling, incl. an engine with its own delimiters
+			for st := 1; st <= 4; st++ {
+				seqs.Sub.Eval()
+				cs := &c06Case{Seq: seq, Style: st}
+				if v := c06Seq.Eval(cs, seqs.Sub); v != nil {
+					v.Check, v.Case = "c06.sequences", hx.MustJSON(cs)
+					col.Report(*v)
+				}
+			}
+		}
 		if v := c06Seq.Eval(c, seqs.Sub); v != nil {
 			v.Check, v.Case = "c06.sequences", hx.MustJSON(c)
 			col.Report(*v)
@@ -452,7 +474,7 @@ func TestC06(t *testing.T) {
 			}
 			seqs.Sub.Class("one-edit")
 		}
-		if v := seqs.Run(&c06Case{Seq: seq, Style: rapid.IntRange(0, 3).Draw(t, "style")}); v != nil {
+		if v := seqs.Run(&c06Case{Seq: seq, Style: rapid.IntRange(0, 4).Draw(t, "style")}); v != nil {
 			t.Fatalf("%s", v.Message)
 		}
 	})
